@@ -333,13 +333,14 @@ UNITS['U04d'] = dict(
     title='BOUNDED (3 rows, all values): element-wise arms of the free fn column::decode used by compaction - Add / ToI64 / Delta for u8,u16,u32 and Delta(I64) (statement and expression slices)',
     harnesses=[dict(name='proofs::decode_%s' % t, bounded='3 rows, unwind 5', unwind=5, clause='Add: stored + offset; ToI64: stored; Delta: running sum', fn='column::decode[slices %s]' % t) for t in ('u8', 'u16', 'u32')]
     + [dict(name='proofs::decode_delta_i64', bounded='3 rows, unwind 5', unwind=5, clause='Delta(I64): running sum', fn='column::decode[slice i64]'),
+       dict(name='proofs::unhexpack_arm_is_implemented', clause='the UnhexpackStrings arm of decode returns (does not panic)', fn='column::decode[slice: UnhexpackStrings arm]'),
        dict(name='proofs::vx_canary', expect_fail=True)],
     assumptions=['R10: `arg0: &dyn Data` replaced by a typed view with the same cast_ref_* accessor', 'the stack machine of decode (order of ops, Nullable, PushDataSection, DictLookup, LZ4, Pco, UnpackStrings arms) is not covered'],
-    not_covered=['column::decode control structure (section stack), string / compression arms, `UnhexpackStrings => todo!()`'])
+    not_covered=['column::decode control structure (section stack), string / compression arms (the UnhexpackStrings arm is a known finding: todo!())'])
 
 UNITS['U22k'] = dict(
     kind='kani', crate='kani/U22', timeout_s=700, mem_gb=12, jobs=2,
-    title='BOUNDED (3 columns, two fixed name sets, every grouping into files): inner_locustdb::subpartition + lookup-map construction (slice) + PartitionMetadata::subpartition_key',
+    title='ATTEMPT, belongs to no check (CBMC does not finish): inner_locustdb::subpartition column ordering and grouping into files (slice), 3 columns, two fixed name sets',
     harnesses=[dict(name='proofs::%s' % n, bounded='3 one-byte columns named %s, size limit 1..=3 (all three groupings), unwind 6' % names, unwind=6, clause='every column lands in exactly one file; files hold ascending runs (byte order) of the names; each file is keyed by its last name', fn='subpartition')
                for (n, names) in [('mixed_case_names_layout', '{a, B, c}'), ('prefix_names_layout', '{ab, a, abc}')]]
     + [dict(name='proofs::vx_canary', expect_fail=True)],
